@@ -102,7 +102,7 @@ theorem instrs_single (f : T.Form) (p : Bytes) (hwf : (T.Tok.push f p).WF) :
 
 theorem btc_single_push (testnet : Bool) (f : T.Form) (p : Bytes) (hwf : (T.Tok.push f p).WF) :
     evalBtc testnet (singlePush f p) =
-      ⟨.opReturn (if (ByteArray.mk p.toArray).validateUTF8 then p else []), none⟩ := by
+      ⟨.opReturn (if L.valid p then p else []), none⟩ := by
   unfold evalBtc
   rw [instrs_single f p hwf]
   simp [singlePush]
